@@ -1,0 +1,272 @@
+//go:build verif
+
+package auth
+
+// Contracts for property C03 (effective access = admin grants + document grants + public, through roles).
+// Comment-only; read by /verif/engine. Trusted dispatch/storage contracts: /verif/trusted/c03_auth.spec.
+
+//@ props C03
+
+// ---- the three implementations of PrincipalCollectionAccess and their state ----
+
+//@ pred pcaKnown(p PrincipalCollectionAccess) bool
+//@   is (dynType(p) == typeTag(*CollectionAccess) || dynType(p) == typeTag(*userImpl) || dynType(p) == typeTag(*roleImpl)) && unbox(p, *CollectionAccess) != nil
+
+// (a literal nil inside ite() is not typed by the engine)
+//@ pred idTS(s channels.TimedSet) channels.TimedSet
+//@   is s
+//@ pred nilTS() channels.TimedSet
+//@   is idTS(nil)
+
+//@ pred pcaExplicit(p PrincipalCollectionAccess) channels.TimedSet
+//@   is ite(dynType(p) == typeTag(*CollectionAccess), unbox(p, *CollectionAccess).ExplicitChannels_, ite(dynType(p) == typeTag(*userImpl), unbox(p, *userImpl).ExplicitChannels_, unbox(p, *roleImpl).ExplicitChannels_))
+//@ pred pcaChannelsRaw(p PrincipalCollectionAccess) channels.TimedSet
+//@   is ite(dynType(p) == typeTag(*CollectionAccess), unbox(p, *CollectionAccess).Channels_, ite(dynType(p) == typeTag(*userImpl), unbox(p, *userImpl).Channels_, unbox(p, *roleImpl).Channels_))
+//@ pred pcaInvalSeq(p PrincipalCollectionAccess) uint64
+//@   is ite(dynType(p) == typeTag(*CollectionAccess), unbox(p, *CollectionAccess).ChannelInvalSeq, ite(dynType(p) == typeTag(*userImpl), unbox(p, *userImpl).ChannelInvalSeq, unbox(p, *roleImpl).ChannelInvalSeq))
+//@ pred pcaHistory(p PrincipalCollectionAccess) TimedSetHistory
+//@   is ite(dynType(p) == typeTag(*CollectionAccess), unbox(p, *CollectionAccess).ChannelHistory_, ite(dynType(p) == typeTag(*userImpl), unbox(p, *userImpl).ChannelHistory_, unbox(p, *roleImpl).ChannelHistory_))
+//@ pred pcaJWT(p PrincipalCollectionAccess) channels.TimedSet
+//@   is ite(dynType(p) == typeTag(*CollectionAccess), unbox(p, *CollectionAccess).JWTChannels_, ite(dynType(p) == typeTag(*userImpl), unbox(p, *userImpl).JWTChannels_, nilTS()))
+
+// ---- concrete getters (pure: SMT definition derived from the body) ----
+
+//@ func CollectionAccess.ExplicitChannels
+//@   pure
+//@ func CollectionAccess.JWTChannels
+//@   pure
+//@ func CollectionAccess.GetChannelInvalSeq
+//@   pure
+//@ func CollectionAccess.InvalidatedChannels
+//@   pure
+//@ func CollectionAccess.ChannelHistory
+//@   pure
+//@ func roleImpl.ExplicitChannels
+//@   pure
+//@ func roleImpl.GetChannelInvalSeq
+//@   pure
+//@ func roleImpl.InvalidatedChannels
+//@   pure
+//@ func roleImpl.ChannelHistory
+//@   pure
+//@ func userImpl.JWTChannels
+//@   pure
+
+// the dispatch predicates agree with the concrete methods
+//@ lemma dispatch_ca(ca *CollectionAccess)
+//@   requires ca != nil
+//@   ensures[explicit] ca.ExplicitChannels() == pcaExplicit(box(ca))
+//@   ensures[jwt]      ca.JWTChannels() == pcaJWT(box(ca))
+//@   ensures[inval]    ca.GetChannelInvalSeq() == pcaInvalSeq(box(ca))
+//@   ensures[invalch]  ca.InvalidatedChannels() == ite(pcaInvalSeq(box(ca)) != 0, pcaChannelsRaw(box(ca)), nilTS())
+//@   ensures[history]  ca.ChannelHistory() == pcaHistory(box(ca))
+
+//@ lemma dispatch_role(r *roleImpl)
+//@   requires r != nil
+//@   ensures[explicit] r.ExplicitChannels() == pcaExplicit(box(r))
+//@   ensures[inval]    r.GetChannelInvalSeq() == pcaInvalSeq(box(r))
+//@   ensures[invalch]  r.InvalidatedChannels() == ite(pcaInvalSeq(box(r)) != 0, pcaChannelsRaw(box(r)), nilTS())
+//@   ensures[history]  r.ChannelHistory() == pcaHistory(box(r))
+
+// ---- concrete setters ----
+
+//@ func CollectionAccess.SetChannelInvalSeq
+//@   requires ca != nil
+//@   modifies ca.ChannelInvalSeq
+//@   ensures[set] ca.ChannelInvalSeq == invalSeq
+//@ func CollectionAccess.setChannels
+//@   requires ca != nil
+//@   modifies ca.Channels_
+//@   ensures[set] ca.Channels_ == channels
+//@ func CollectionAccess.SetChannelHistory
+//@   requires ca != nil
+//@   modifies ca.ChannelHistory_
+//@   ensures[set] ca.ChannelHistory_ == history
+//@ func roleImpl.SetChannelInvalSeq
+//@   requires role != nil
+//@   modifies role.ChannelInvalSeq
+//@   ensures[set] role.ChannelInvalSeq == invalSeq
+//@ func roleImpl.setChannels
+//@   requires role != nil
+//@   modifies role.Channels_
+//@   ensures[set] role.Channels_ == channels
+//@ func roleImpl.SetChannelHistory
+//@   requires role != nil
+//@   modifies role.ChannelHistory_
+//@   ensures[set] role.ChannelHistory_ == history
+
+// ---- collection access entries ----
+
+// every stored scope map and CollectionAccess entry is a real object (a JSON null would make the accessors panic)
+//@ pred collsWF(m map[string]map[string]*CollectionAccess) bool
+//@   is (forall s string :: {s in m} {m[s]} (s in m) ==> m[s] != nil) && (forall s string, c string :: {m[s][c]} (s in m) && (c in m[s]) ==> m[s][c] != nil)
+
+//@ pred caZero(ca *CollectionAccess) bool
+//@   is ca.Channels_ == nil && ca.ExplicitChannels_ == nil && ca.JWTChannels_ == nil && ca.ChannelHistory_ == nil && ca.ChannelInvalSeq == 0
+
+//@ func roleImpl.getOrCreateCollectionAccess
+//@   safety on
+//@   requires role != nil && collsWF(role.CollectionsAccess)
+//@   modifies role.CollectionsAccess, elems(role.CollectionsAccess), elems(role.CollectionsAccess[scope])
+//@   ensures[entry]    result != nil && (scope in role.CollectionsAccess) && (collection in role.CollectionsAccess[scope]) && role.CollectionsAccess[scope][collection] == result
+//@   ensures[existing] old((scope in role.CollectionsAccess) && (collection in role.CollectionsAccess[scope])) ==> result == old(role.CollectionsAccess[scope][collection]) && role.CollectionsAccess == old(role.CollectionsAccess)
+//@   ensures[created]  !old((scope in role.CollectionsAccess) && (collection in role.CollectionsAccess[scope])) ==> !old(allocated(now(result))) && caZero(result)
+//@   ensures[wf]       collsWF(role.CollectionsAccess)
+
+// Authenticator.calculateHistory (called by rebuildCollectionChannels and RebuildRoles) is under contract in
+// auth/zz_verif_c13.go (props C03 C13): `requires auth != nil`, `modifies elems(currentHistory)` -- it only reads
+// the grant sets and rewrites the history map it is given (or a new one). (It also rewrites the Entries arrays
+// of the history values, which no C03 contract mentions and the modifies syntax cannot name.)
+
+// ---- principals behind the Principal interface (closed world: *roleImpl and *userImpl) ----
+
+//@ pred prKnown(p Principal) bool
+//@   is (dynType(p) == typeTag(*userImpl) || dynType(p) == typeTag(*roleImpl)) && unbox(p, *roleImpl) != nil
+//@ pred prColls(p Principal) map[string]map[string]*CollectionAccess
+//@   is ite(dynType(p) == typeTag(*userImpl), unbox(p, *userImpl).CollectionsAccess, unbox(p, *roleImpl).CollectionsAccess)
+
+// The access record rebuildCollectionChannels works on: the principal itself for the default collection,
+// otherwise the principal's CollectionAccess entry of the collection.
+//@ pred rcCA(p Principal, scope string, coll string) PrincipalCollectionAccess
+//@   is ite(base.IsDefaultCollection(scope, coll), p, box(prColls(p)[scope][coll]))
+
+// the public channel (a pred because a local called "channels" hides the package name in a contract)
+//@ pred publicCh() string
+//@   is channels.DocumentPublicChannel
+
+// ---- rebuilding a principal's channel set ----
+
+// The property's union: after a successful rebuild the channel set is valid (non-nil, invalidation sequence 0)
+// and its members are exactly: the admin-assigned (explicit) channels, the channels the channel computer
+// returned (grants by the sync function), the JWT channels where the record has them, and the public channel "!".
+// The explicit set is not modified. On error the record is left as it was (still invalid).
+//@ func Authenticator.rebuildCollectionChannels
+//@   safety on
+//@   requires auth != nil && prKnown(princ) && collsWF(prColls(princ))
+//@   modifies c03Computed, roleImpl.CollectionsAccess, elems(prColls(princ)), elems(prColls(princ)[scope]), elems(pcaHistory(rcCA(princ, scope, collection))), CollectionAccess.Channels_, roleImpl.Channels_, CollectionAccess.ChannelInvalSeq, roleImpl.ChannelInvalSeq, CollectionAccess.ChannelHistory_, roleImpl.ChannelHistory_
+//@   ensures[valid]     isNilErr(result) ==> pcaInvalSeq(rcCA(princ, scope, collection)) == 0 && pcaChannelsRaw(rcCA(princ, scope, collection)) != nil
+//@   ensures[public]    isNilErr(result) ==> (publicCh() in pcaChannelsRaw(rcCA(princ, scope, collection)))
+//@   ensures[explicit]  isNilErr(result) ==> (forall k string :: {k in pcaExplicit(rcCA(princ, scope, collection))} (k in pcaExplicit(rcCA(princ, scope, collection))) ==> (k in pcaChannelsRaw(rcCA(princ, scope, collection))))
+//@   ensures[computed]  isNilErr(result) && auth.channelComputer != nil ==> (forall k string :: {k in c03Computed} (k in c03Computed) ==> (k in pcaChannelsRaw(rcCA(princ, scope, collection))))
+//@   ensures[only]      isNilErr(result) ==> (forall k string :: {k in pcaChannelsRaw(rcCA(princ, scope, collection))} (k in pcaChannelsRaw(rcCA(princ, scope, collection))) ==> (k in pcaExplicit(rcCA(princ, scope, collection))) || (auth.channelComputer != nil && (k in c03Computed)) || (k in pcaJWT(rcCA(princ, scope, collection))) || k == publicCh())
+//@   ensures[explicit-kept] tsUnchanged(pcaExplicit(rcCA(princ, scope, collection)))
+//@   ensures[exact]     isNilErr(result) && pcaJWT(rcCA(princ, scope, collection)) == nil ==> (forall k string :: {k in pcaChannelsRaw(rcCA(princ, scope, collection))} (k in pcaChannelsRaw(rcCA(princ, scope, collection))) <==> (k in pcaExplicit(rcCA(princ, scope, collection))) || (auth.channelComputer != nil && (k in c03Computed)) || k == publicCh())
+//@   ensures[since-admin] isNilErr(result) && pcaJWT(rcCA(princ, scope, collection)) == nil ==> (forall k string :: {pcaChannelsRaw(rcCA(princ, scope, collection))[k]} (k in pcaExplicit(rcCA(princ, scope, collection))) && k != publicCh() && !(auth.channelComputer != nil && (k in c03Computed)) ==> pcaChannelsRaw(rcCA(princ, scope, collection))[k].Sequence == pcaExplicit(rcCA(princ, scope, collection))[k].Sequence)
+//@   ensures[since-doc] isNilErr(result) && pcaJWT(rcCA(princ, scope, collection)) == nil && auth.channelComputer != nil ==> (forall k string :: {pcaChannelsRaw(rcCA(princ, scope, collection))[k]} (k in c03Computed) && k != publicCh() ==> pcaChannelsRaw(rcCA(princ, scope, collection))[k].Sequence == mergedSeq(ite(k in pcaExplicit(rcCA(princ, scope, collection)), pcaExplicit(rcCA(princ, scope, collection))[k].Sequence, 0), c03Computed[k], 0))
+//@   ensures[error]     !isNilErr(result) ==> (forall o *CollectionAccess :: {o.Channels_} {o.ChannelInvalSeq} old(allocated(o)) ==> o.Channels_ == old(o.Channels_) && o.ChannelInvalSeq == old(o.ChannelInvalSeq)) && (forall r *roleImpl :: {r.Channels_} {r.ChannelInvalSeq} r.Channels_ == old(r.Channels_) && r.ChannelInvalSeq == old(r.ChannelInvalSeq))
+
+// ---- rebuilding a user's roles ----
+
+//@ pred usrKnown(u User) bool
+//@   is dynType(u) == typeTag(*userImpl) && unbox(u, *userImpl) != nil
+
+//@ func userImpl.ExplicitRoles
+//@   pure
+//@ func userImpl.JWTRoles
+//@   pure
+//@ func userImpl.GetRoleInvalSeq
+//@   pure
+//@ func userImpl.InvalidatedRoles
+//@   pure
+//@ func userImpl.RoleHistory
+//@   pure
+//@ func userImpl.RoleNames
+//@   pure
+
+//@ lemma dispatch_user(u *userImpl)
+//@   requires u != nil
+//@   ensures[explicit] u.ExplicitRoles() == u.ExplicitRoles_
+//@   ensures[jwt]      u.JWTRoles() == u.JWTRoles_ && u.JWTChannels() == pcaJWT(box(u))
+//@   ensures[inval]    u.GetRoleInvalSeq() == u.RoleInvalSeq
+//@   ensures[invalr]   u.InvalidatedRoles() == ite(u.RoleInvalSeq != 0, u.RolesSince_, nilTS())
+//@   ensures[history]  u.RoleHistory() == u.RoleHistory_
+//@   ensures[names]    u.RoleNames() == ite(u.RoleInvalSeq != 0, nilTS(), u.RolesSince_)
+
+//@ func userImpl.SetRoleInvalSeq
+//@   requires user != nil
+//@   modifies user.RoleInvalSeq
+//@   ensures[set] user.RoleInvalSeq == invalSeq
+//@ func userImpl.SetRoleHistory
+//@   requires user != nil
+//@   modifies user.RoleHistory_
+//@   ensures[set] user.RoleHistory_ == history
+//@ func userImpl.setRolesSince
+//@   requires user != nil
+//@   modifies user.RolesSince_, user.roles
+//@   ensures[set] user.RolesSince_ == rolesSince && user.roles == nil
+
+// The property's union for roles: after a successful rebuild the user's role set is valid (non-nil,
+// invalidation sequence 0) and its members are exactly the roles granted by the sync function (the channel
+// computer's result), the admin-assigned roles and the JWT roles. The stored explicit and JWT sets are not
+// modified. On error nothing of the user is changed.
+//@ func Authenticator.RebuildRoles
+//@   safety on
+//@   requires auth != nil && usrKnown(user)
+//@   modifies c03ComputedRoles, c03ComputedRoleKeys, unbox(user, *userImpl).RolesSince_, unbox(user, *userImpl).roles, unbox(user, *userImpl).RoleInvalSeq, unbox(user, *userImpl).RoleHistory_, elems(unbox(user, *userImpl).RoleHistory_), elems(c03ComputedRoles)
+//@   ensures[valid]    isNilErr(result) ==> unbox(user, *userImpl).RoleInvalSeq == 0 && unbox(user, *userImpl).RolesSince_ != nil && unbox(user, *userImpl).roles == nil
+//@   ensures[exact]    isNilErr(result) ==> (forall k string :: {k in unbox(user, *userImpl).RolesSince_} (k in unbox(user, *userImpl).RolesSince_) <==> (auth.channelComputer != nil && (k in c03ComputedRoleKeys)) || ((k in unbox(user, *userImpl).ExplicitRoles_) && contributes(unbox(user, *userImpl).ExplicitRoles_[k], 0)) || ((k in unbox(user, *userImpl).JWTRoles_) && contributes(unbox(user, *userImpl).JWTRoles_[k], 0)))
+//@   ensures[kept]     tsUnchanged(unbox(user, *userImpl).ExplicitRoles_) && tsUnchanged(unbox(user, *userImpl).JWTRoles_) && unbox(user, *userImpl).ExplicitRoles_ == old(unbox(user, *userImpl).ExplicitRoles_) && unbox(user, *userImpl).JWTRoles_ == old(unbox(user, *userImpl).JWTRoles_)
+//@   ensures[error]    !isNilErr(result) ==> unbox(user, *userImpl).RolesSince_ == old(unbox(user, *userImpl).RolesSince_) && unbox(user, *userImpl).RoleInvalSeq == old(unbox(user, *userImpl).RoleInvalSeq)
+
+// ---- effective channels of a user: own channels and those of every role held ----
+
+//@ func roleImpl.CollectionChannels
+//@   pure
+//@ func roleImpl.Name
+//@   pure
+
+//@ pred prCollChannels(p Principal, scope string, coll string) channels.TimedSet
+//@   is ite(dynType(p) == typeTag(*userImpl), unbox(p, *userImpl).roleImpl.CollectionChannels(scope, coll), unbox(p, *roleImpl).CollectionChannels(scope, coll))
+//@ pred prName(p Principal) string
+//@   is ite(dynType(p) == typeTag(*userImpl), unbox(p, *userImpl).Name_, unbox(p, *roleImpl).Name_)
+
+// role i of the user (the list GetRoles resolves), its valid channel set in the collection, and the sequence
+// at which the user was granted the role
+//@ pred uRole(u *userImpl, i int) *roleImpl
+//@   is unbox(userRoles(u)[i], *roleImpl)
+//@ pred uRoleCh(u *userImpl, scope string, coll string, i int) channels.TimedSet
+//@   is unbox(userRoles(u)[i], *roleImpl).CollectionChannels(scope, coll)
+//@ pred uRoleSince(u *userImpl, i int) uint64
+//@   is u.RoleNames()[unbox(userRoles(u)[i], *roleImpl).Name_].Sequence
+// role i confers channel k on the user
+//@ pred uRoleGives(u *userImpl, scope string, coll string, i int, k string) bool
+//@   is (k in uRoleCh(u, scope, coll, i)) && contributes(uRoleCh(u, scope, coll, i)[k], uRoleSince(u, i))
+
+// InheritedCollectionChannels: the effective channel set is exactly the user's own (valid) channels plus the
+// channels of every role the user holds; it is a new set: the user's own set and the roles' sets are not
+// modified (the Copy matters).
+//@ func userImpl.InheritedCollectionChannels
+//@   safety on
+//@   requires user != nil
+//@   modifies user.roles, user.deletedRoles
+//@   ensures[load-err] result1 == rolesLoadErr(user) && (isNilErr(result1) <==> result0 != nil)
+//@   ensures[new]      isNilErr(result1) ==> !old(allocated(now(result0)))
+//@   ensures[members]  isNilErr(result1) ==> (forall k string :: {k in result0} (k in result0) <==> (k in user.roleImpl.CollectionChannels(scope, collection)) || (exists i int :: {userRoles(user)[i]} 0 <= i && i < len(userRoles(user)) && uRoleGives(user, scope, collection, i, k)))
+//@   ensures[frame]    forall m channels.TimedSet :: {tsUnchanged(m)} old(allocated(m)) ==> tsUnchanged(m)
+//@   ensures[own-since]   isNilErr(result1) ==> (forall k string :: {result0[k]} (k in user.roleImpl.CollectionChannels(scope, collection)) && !(exists i int :: {userRoles(user)[i]} 0 <= i && i < len(userRoles(user)) && uRoleGives(user, scope, collection, i, k)) ==> result0[k].Sequence == user.roleImpl.CollectionChannels(scope, collection)[k].Sequence)
+//@   ensures[not-earlier] isNilErr(result1) ==> (forall k string :: {result0[k]} (k in result0) && !(k in user.roleImpl.CollectionChannels(scope, collection)) ==> (exists i int :: {userRoles(user)[i]} 0 <= i && i < len(userRoles(user)) && uRoleGives(user, scope, collection, i, k) && (uRoleCh(user, scope, collection, i)[k].VbNo != nil || result0[k].Sequence >= uRoleSince(user, i))))
+//@   loop 1 invariant[own-since]   forall k string :: {channels[k]} (k in user.roleImpl.CollectionChannels(scope, collection)) && !(exists i int :: {userRoles(user)[i]} 0 <= i && i <= #index && uRoleGives(user, scope, collection, i, k)) ==> channels[k].Sequence == user.roleImpl.CollectionChannels(scope, collection)[k].Sequence
+//@   loop 1 invariant[not-earlier] forall k string :: {channels[k]} (k in channels) && !(k in user.roleImpl.CollectionChannels(scope, collection)) ==> (exists i int :: {userRoles(user)[i]} 0 <= i && i <= #index && uRoleGives(user, scope, collection, i, k) && (uRoleCh(user, scope, collection, i)[k].VbNo != nil || channels[k].Sequence >= uRoleSince(user, i)))
+//@   loop 1 invariant[roles]   roles == userRoles(user) && rolesWF(user) && isNilErr(rolesLoadErr(user)) && #index < len(roles)
+//@   loop 1 invariant[fresh]   channels != nil && !old(allocated(now(channels)))
+//@   loop 1 invariant[frame]   forall m channels.TimedSet :: {tsUnchanged(m)} old(allocated(m)) ==> tsUnchanged(m)
+//@   loop 1 invariant[members] forall k string :: {k in channels} (k in channels) <==> (k in user.roleImpl.CollectionChannels(scope, collection)) || (exists i int :: {userRoles(user)[i]} 0 <= i && i <= #index && uRoleGives(user, scope, collection, i, k))
+
+
+// the same for the default collection
+//@ func userImpl.inheritedChannels
+//@   safety on
+//@   requires user != nil
+//@   modifies user.roles, user.deletedRoles
+//@   ensures[load-err] result1 == rolesLoadErr(user) && (isNilErr(result1) <==> result0 != nil)
+//@   ensures[new]      isNilErr(result1) ==> !old(allocated(now(result0)))
+//@   ensures[members]  isNilErr(result1) ==> (forall k string :: {k in result0} (k in result0) <==> (k in user.roleImpl.Channels()) || (exists i int :: {userRoles(user)[i]} 0 <= i && i < len(userRoles(user)) && uRoleGives(user, base.DefaultScope, base.DefaultCollection, i, k)))
+//@   ensures[frame]    forall m channels.TimedSet :: {tsUnchanged(m)} old(allocated(m)) ==> tsUnchanged(m)
+//@   ensures[own-since]   isNilErr(result1) ==> (forall k string :: {result0[k]} (k in user.roleImpl.Channels()) && !(exists i int :: {userRoles(user)[i]} 0 <= i && i < len(userRoles(user)) && uRoleGives(user, base.DefaultScope, base.DefaultCollection, i, k)) ==> result0[k].Sequence == user.roleImpl.Channels()[k].Sequence)
+//@   ensures[not-earlier] isNilErr(result1) ==> (forall k string :: {result0[k]} (k in result0) && !(k in user.roleImpl.Channels()) ==> (exists i int :: {userRoles(user)[i]} 0 <= i && i < len(userRoles(user)) && uRoleGives(user, base.DefaultScope, base.DefaultCollection, i, k) && (uRoleCh(user, base.DefaultScope, base.DefaultCollection, i)[k].VbNo != nil || result0[k].Sequence >= uRoleSince(user, i))))
+//@   loop 1 invariant[own-since]   forall k string :: {channels[k]} (k in user.roleImpl.Channels()) && !(exists i int :: {userRoles(user)[i]} 0 <= i && i <= #index && uRoleGives(user, base.DefaultScope, base.DefaultCollection, i, k)) ==> channels[k].Sequence == user.roleImpl.Channels()[k].Sequence
+//@   loop 1 invariant[not-earlier] forall k string :: {channels[k]} (k in channels) && !(k in user.roleImpl.Channels()) ==> (exists i int :: {userRoles(user)[i]} 0 <= i && i <= #index && uRoleGives(user, base.DefaultScope, base.DefaultCollection, i, k) && (uRoleCh(user, base.DefaultScope, base.DefaultCollection, i)[k].VbNo != nil || channels[k].Sequence >= uRoleSince(user, i)))
+//@   loop 1 invariant[roles]   roles == userRoles(user) && rolesWF(user) && isNilErr(rolesLoadErr(user)) && #index < len(roles)
+//@   loop 1 invariant[fresh]   channels != nil && !old(allocated(now(channels)))
+//@   loop 1 invariant[frame]   forall m channels.TimedSet :: {tsUnchanged(m)} old(allocated(m)) ==> tsUnchanged(m)
+//@   loop 1 invariant[members] forall k string :: {k in channels} (k in channels) <==> (k in user.roleImpl.Channels()) || (exists i int :: {userRoles(user)[i]} 0 <= i && i <= #index && uRoleGives(user, base.DefaultScope, base.DefaultCollection, i, k))
